@@ -32,6 +32,30 @@ func zzCandidates(n int, lens string, structure string) (Completions, []string) 
 			pairs = append(pairs, v, "shared "+string(rune('0'+(i/2)%10)))
 		}
 		return CompleteValuesDescribed(pairs...), vals
+	case "ragged", "ragged-rev":
+		// shared descriptions with groups of unequal size: 1, 2, 3, ... candidates per
+		// description (ragged-rev: the largest group first), so that the rows of the aliased
+		// grid have different lengths
+		var group []int
+		for g, left := 0, n; left > 0; g++ {
+			size := g + 1
+			if size > left {
+				size = left
+			}
+			for k := 0; k < size; k++ {
+				group = append(group, g)
+			}
+			left -= size
+		}
+		var pairs []string
+		for i, v := range vals {
+			g := group[i]
+			if structure == "ragged-rev" {
+				g = group[len(group)-1] - g
+			}
+			pairs = append(pairs, v, "shared "+string(rune('0'+g%10)))
+		}
+		return CompleteValuesDescribed(pairs...), vals
 	case "tags":
 		half := (n + 1) / 2
 		a := CompleteValues(vals[:half]...).Tag("first")
